@@ -25,7 +25,7 @@ Init == l = 1 /\ g = [pay |-> <<0>>, fee |-> <<0>>]
 Next == /\ l <= Len(Steps)
         /\ LET e == Steps[l]
                P == PS[e.c] IN
-           g' = Ghost(IF e.step = 0 THEN InitGhost(P) ELSE g, e.req, [ok |-> e.ok = 1], P)
+           g' = GhostFor(Mon, IF e.step = 0 THEN InitGhost(P) ELSE g, e.req, [ok |-> e.ok = 1], P)
         /\ l' = l + 1
 Spec == Init /\ [][Next]_<<l, g>>
 
@@ -53,7 +53,7 @@ MonOK(gg, P) == /\ (Mon # "fee" => Inv_C12_pay(gg, P))
                 /\ (Mon # "pay" => Inv_C12_fee(gg, P))
 Scan == FoldLeft(LAMBDA acc, e :
                    LET P  == PS[e.c]
-                       g1 == Ghost(IF e.step = 0 THEN InitGhost(P) ELSE acc.g, e.req, [ok |-> e.ok = 1], P)
+                       g1 == GhostFor(Mon, IF e.step = 0 THEN InitGhost(P) ELSE acc.g, e.req, [ok |-> e.ok = 1], P)
                        seen == e.step > 0 /\ acc.bad # <<>> /\ acc.bad[Len(acc.bad)].seq = e.seq IN
                    [g |-> g1,
                     bad |-> IF ~seen /\ ~MonOK(g1, P)
